@@ -44,6 +44,23 @@ type Ctx struct {
 	start time.Time
 	// coverage extras
 	Extra map[string]interface{}
+	// alias: while a rule group of another property is re-evaluated as part of this one, its rule names are mapped
+	alias map[string]string
+}
+
+// withAlias runs f with rule names translated (shared rule groups keep their own site keys).
+func (c *Ctx) withAlias(m map[string]string, f func()) {
+	old := c.alias
+	c.alias = m
+	defer func() { c.alias = old }()
+	f()
+}
+
+func (c *Ctx) mapRule(rule string) string {
+	if r, ok := c.alias[rule]; ok {
+		return r
+	}
+	return rule
 }
 
 func newCtx(prop, tier string, p *Prog) *Ctx {
@@ -51,6 +68,7 @@ func newCtx(prop, tier string, p *Prog) *Ctx {
 }
 
 func (c *Ctx) add(rule, site string, pos token.Pos, st Status, detail string) *Obligation {
+	rule = c.mapRule(rule)
 	key := c.Prop + "." + rule + " / " + site
 	if n := c.keys[key]; n > 0 {
 		c.keys[key] = n + 1
@@ -94,10 +112,16 @@ func (c *Ctx) Check(cond bool, rule, site string, pos token.Pos, okWitness, fail
 }
 
 // Rule documents a rule (printed in evidence).
-func (c *Ctx) Rule(rule, text string) { c.Rules[c.Prop+"."+rule] = text }
+func (c *Ctx) Rule(rule, text string) {
+	if _, aliased := c.alias[rule]; aliased {
+		return
+	}
+	c.Rules[c.Prop+"."+rule] = text
+}
 
 // Expect fails when a rule matched fewer instances than confirmed by hand (vacuity guard).
 func (c *Ctx) Expect(rule string, min int) {
+	rule = c.mapRule(rule)
 	n := 0
 	for _, o := range c.Obls {
 		if o.Rule == c.Prop+"."+rule {
